@@ -18,6 +18,14 @@ allocations and handles, and writes `<outdir>/Sigs.lean` (Lean data, namespace `
                   their allocations live for `'a`, and what `'a` is for them)
   settingsAsserts the relations asserted in the four `const { … }` blocks of raw_bump.rs
                   (`ensure_*satisfies_settings*`) + which conversion method calls which block
+  valueConvs      every conversion between lifetime-carrying public types (Stats, Chunk, the chunk iterators, their
+                  `Any*` forms, BumpBox, FixedBumpVec/-String, the guards, `&Bump` -> `&BumpScope`), found by scanning ALL
+                  source files: `impl From<X> for Y`, associated functions `Y::f(X) -> Y`, the accessors of Stats / Chunk /
+                  AnyStats / AnyChunk and of their iterators, `Iterator::Item`, `AsRef`/`AsMut`/`Borrow`/`BorrowMut`/`Deref`/
+                  `DerefMut`, and `from_parts(X, allocator)` of the collections — with, for every lifetime position of the
+                  output, its relation to the lifetimes the input names (`fromInput` / `fresh` = an elided `'_` in an impl
+                  header or where no reference parameter can supply it / `static_` / `other`).  NB: `'_` on both sides of
+                  an impl header are two independent lifetimes.
   autoImpls / structs   explicit `unsafe impl Send/Sync` of the handle types with their bounds and
                   the field types of the handle structs (input of the auto-trait derivation in Lean)
 
@@ -279,7 +287,7 @@ def classify_ret(ret, owner, fname):
     lts = lts_of_args(args)
     table = {"BumpBox": ("box", 1), "Stats": ("stats", 1), "BumpScopeGuard": ("guard", 1), "BumpClaimGuard": ("claimGuard", 2),
              "BumpPoolGuard": ("poolGuard", 1), "BumpScope": ("scopeVal", 1), "Bump": ("bumpVal", 0),
-             "FixedBumpVec": ("box", 1), "FixedBumpString": ("box", 1)}
+             "FixedBumpVec": ("box", 1), "FixedBumpString": ("box", 1), "AnyStats": ("stats", 1)}
     if head in table:
         cls, k = table[head]
         if len(lts) != k: die(f"{owner}::{fname}: `{head}` with {len(lts)} lifetime arguments, expected {k} (`{t}`)")
@@ -324,7 +332,7 @@ class Sig:
         self.owner, self.name, self.recv, self.ret, self.lts, self.cl, self.file, self.line = owner, name, recv, ret, lts, cl, file, line
     def key(self): return (self.owner, self.name)
 
-OWNER_CLASS = {"Bump": "bump", "BumpScope": "scope", "BumpScopeGuard": "guard", "BumpClaimGuard": "claim", "BumpPool": "pool",
+OWNER_CLASS = {"BumpAllocatorCore": "trAllocator", "Bump": "bump", "BumpScope": "scope", "BumpScopeGuard": "guard", "BumpClaimGuard": "claim", "BumpPool": "pool",
                "BumpPoolGuard": "poolGuard", "BumpAllocator": "trAllocator", "BumpAllocatorScope": "trScope",
                "BumpAllocatorTypedScope": "trTypedScope", "MutBumpAllocatorTypedScope": "trMutTypedScope",
                "BumpVec": "coll", "BumpString": "coll", "MutBumpVec": "coll", "MutBumpVecRev": "coll", "MutBumpString": "coll"}
@@ -333,7 +341,7 @@ def effect_class(owner, name):
     """what the method DOES at run time, by name (hand-written ground truth read off the implementation; the meaning of each
     class is the dynamic semantics in lean/BumpProof/Life/Calculus.lean)"""
     n = name[4:] if name.startswith("try_") else name
-    if n.startswith("alloc") or n in ("stats", "allocator") or n.startswith("into_"): return "alloc"   # yields something that points into the arena
+    if n.startswith("alloc") or n in ("stats", "any_stats", "allocator") or n.startswith("into_"): return "alloc"   # yields something that points into the arena
     if n == "scope_guard": return "mkGuard"
     if n == "scope" and owner == "BumpScopeGuard": return "guardScope"
     if n in ("reset", "reset_to_start"): return "guardReset" if owner == "BumpScopeGuard" else "resetAll"
@@ -347,7 +355,7 @@ def effect_class(owner, name):
     die(f"{owner}::{name}: no effect class for this method name")
 
 # method names that matter (allocation-/handle-producing or epoch-ending); `try_` twins included automatically
-PRODUCER = re.compile(r"^(try_)?(alloc(_[a-z_]+)?|stats|allocator|scope_guard|scope|scoped|scoped_aligned|aligned|claim|as_scope|as_mut_scope|"
+PRODUCER = re.compile(r"^(try_)?(alloc(_[a-z_]+)?|stats|any_stats|allocator|scope_guard|scope|scoped|scoped_aligned|aligned|claim|as_scope|as_mut_scope|"
                       r"by_value|get|get_with_size|get_with_capacity|reset|reset_to_start|with_settings|borrow_with_settings|"
                       r"borrow_mut_with_settings|deref|deref_mut|into_[a-z_]+)$")
 NIGHTLY = re.compile(r'cfg\s*\(\s*feature\s*=\s*"nightly')
@@ -642,6 +650,163 @@ def drop_impls(repo):
         res.append((ty, has))
     return res
 
+
+# ------------------------------------------------------------------------------------------------
+# conversions between lifetime-carrying public types
+
+LT_TYPES = {"Stats": 1, "Chunk": 1, "ChunkPrevIter": 1, "ChunkNextIter": 1, "AnyStats": 1, "AnyChunk": 1, "AnyChunkPrevIter": 1,
+            "AnyChunkNextIter": 1, "BumpBox": 1, "FixedBumpVec": 1, "FixedBumpString": 1, "BumpScopeGuard": 1, "BumpClaimGuard": 2,
+            "BumpPoolGuard": 1, "BumpScope": 1}
+STATS_TYPES = ("Stats", "Chunk", "ChunkPrevIter", "ChunkNextIter", "AnyStats", "AnyChunk", "AnyChunkPrevIter", "AnyChunkNextIter")
+VIEW_TRAITS = {"AsRef": "as_ref", "AsMut": "as_mut", "Borrow": "borrow", "BorrowMut": "borrow_mut", "Deref": "deref", "DerefMut": "deref_mut"}
+
+def lt_positions(t):
+    """every lifetime position of a type, left to right: written lifetimes, `&` without one and a lifetime-carrying
+    type of the crate written without its lifetime arguments count as the elided `'_`"""
+    res = []
+    names = "|".join(sorted(LT_TYPES, key=len, reverse=True))
+    for m in re.finditer(rf"&\s*(?!\s*')|'[a-z_][a-z0-9_]*\b|\b({names})\b(?!\s*<\s*')", t):
+        tok = m.group(0)
+        if tok.startswith("'"): res.append(tok)
+        elif tok.startswith("&"): res.append("'_")
+        else: res += ["'_"] * LT_TYPES[m.group(1)]
+    return res
+
+def named_lts(t):
+    return {l for l in lt_positions(t) if l not in ("'_", "'static")}
+
+def lt_rel(l, named, elided):
+    if l == "'_": return elided
+    if l == "'static": return "static_"
+    if l in named: return "fromInput"
+    return "other:" + l
+
+def type_head(t):
+    m = re.match(r"^(&\s*(?:'[a-z_]+\s+)?(?:mut\s+)?)?(?:[A-Za-z_][A-Za-z0-9_]*::)*([A-Za-z_][A-Za-z0-9_]*)", t.strip())
+    if not m: return None, None
+    ref = (m.group(1) or "")
+    return ("&mut " if "mut" in ref else "&" if ref else ""), m.group(2)
+
+def all_sources(repo):
+    root = os.path.join(repo, "src")
+    res = []
+    for d, dirs, files in os.walk(root):
+        dirs[:] = sorted(x for x in dirs if x != "tests")
+        for f in sorted(files):
+            if f.endswith(".rs") and f != "tests.rs":
+                res.append(os.path.relpath(os.path.join(d, f), root))
+    return res
+
+def self_type_of(header):
+    h = re.sub(r"^unsafe\s+", "", header)[4:].strip()
+    if h.startswith("<"): h = h[match_close(h, 0) + 1:].strip()
+    h = re.split(r"\bwhere\b", h)[0].strip()
+    m = re.match(r"^(.*?)\s+for\s+(.*)$", h)
+    return (m.group(1).strip(), m.group(2).strip()) if m else (None, h)
+
+def value_conversions(repo):
+    """→ [(form, input, name, output, [rel], src)]"""
+    rows = []
+    def add(form, inp, name, out, rels, rel, line):
+        if rels: rows.append((form, inp, name, out, rels, f"{rel}:{line}"))
+    for rel in all_sources(repo):
+        src = read(repo, rel)
+        if not re.search(r"\b(" + "|".join(LT_TYPES) + r")\b", src): continue
+        try:
+            blocks = top_blocks(src, rel)
+        except TErr:
+            raise
+        for b in blocks:
+            if b.kind != "impl": continue
+            trait, self_ty = self_type_of(b.header)
+            sref, shead = type_head(self_ty)
+            if shead is None: continue
+            if trait is not None:
+                tm = re.match(r"^(?:[A-Za-z_][A-Za-z0-9_]*::)*([A-Za-z_][A-Za-z0-9_]*)\s*(?:<(.*)>)?$", trait, re.S)
+                if not tm: continue
+                tname, targs = tm.group(1), (tm.group(2) or "").strip()
+                if tname in ("From", "TryFrom"):
+                    iref, ihead = type_head(targs)
+                    if ihead is None: continue
+                    ours = lambda r, h: h in LT_TYPES or (r and h == "Bump")
+                    if not (ours(iref, ihead) or ours(sref, shead)): continue
+                    named = named_lts(targs)
+                    add("from_", iref + ihead, sref + shead, sref + shead, [lt_rel(l, named, "fresh") for l in lt_positions(self_ty)], rel, b.line)
+                elif tname in VIEW_TRAITS and shead in LT_TYPES and not sref:
+                    target = None
+                    mt = re.search(r"\btype\s+Target\s*=\s*([^;]+);", b.body)
+                    if mt: target = norm(mt.group(1))
+                    for f in fns_in(b.body, src, b.body_off):
+                        if f.name != VIEW_TRAITS[tname]: continue
+                        recv = recv_of(f.params, shead, f.name)
+                        ret = f.ret.replace("Self::Target", target or "Self::Target").replace("Self", self_ty)
+                        named = named_lts(self_ty)
+                        add("refView", shead, f.name + ("" if not targs else "<" + norm(targs) + ">"), norm(f.ret),
+                            [lt_rel(l, named, "fromInput" if recv in ("ref", "refMut") else "fresh") for l in lt_positions(ret)], rel, f.line)
+                elif tname in ("Iterator", "DoubleEndedIterator", "IntoIterator") and shead in LT_TYPES and not sref:
+                    mt = re.search(r"\btype\s+Item\s*=\s*([^;]+);", b.body)
+                    if not mt: continue
+                    item = norm(mt.group(1)).replace("Self", self_ty)
+                    named = named_lts(self_ty)
+                    _, ohead = type_head(item)
+                    add("item", shead, "next" if tname != "IntoIterator" else "into_iter", ohead or "?",
+                        [lt_rel(l, named, "fresh") for l in lt_positions(item)], rel, b.line)
+                continue
+            # inherent impls
+            if sref: continue
+            named = named_lts(self_ty)
+            if shead in STATS_TYPES:
+                for f in fns_in(b.body, src, b.body_off):
+                    if f.vis != "pub" or f.unsafe: continue
+                    recv = recv_of(f.params, shead, f.name)
+                    if recv == "static": continue
+                    ret = f.ret.replace("Self", self_ty)
+                    oref, ohead = type_head(peel(ret)) if ret and not ret.startswith("impl") else ("", "impl")
+                    out = (oref or "") + (ohead or "?")
+                    if re.match(r"^Option\s*<", ret.strip()): out = f"Option<{out}>"
+                    add("accessor", shead, f.name, out,
+                        [lt_rel(l, named, "fromInput" if recv in ("ref", "refMut") else "fresh") for l in lt_positions(ret)], rel, f.line)
+            if shead in LT_TYPES:
+                # associated functions that turn one lifetime-carrying value into another (`FixedBumpVec::from_init(BumpBox<'a,…>)`)
+                for f in fns_in(b.body, src, b.body_off):
+                    if f.vis != "pub" or f.unsafe or recv_of(f.params, shead, f.name) != "static": continue
+                    ps = split_top(f.params)
+                    if len(ps) != 1 or ":" not in ps[0]: continue
+                    pty = norm(ps[0].split(":", 1)[1])
+                    pref, phead = type_head(pty)
+                    if phead not in LT_TYPES: continue
+                    ret = peel(f.ret).replace("Self", self_ty)
+                    add("from_", pref + phead, f"{shead}::{f.name}", shead, [lt_rel(l, named_lts(pty), "fresh") for l in lt_positions(ret)], rel, f.line)
+            if shead in ("BumpVec", "BumpString", "MutBumpVec", "MutBumpVecRev", "MutBumpString"):
+                m = re.search(r"\bA\s*:\s*(Mut)?BumpAllocatorTypedScope\s*<\s*('[a-z]+)\s*>", b.header)
+                for f in fns_in(b.body, src, b.body_off):
+                    if f.vis != "pub" or f.unsafe or recv_of(f.params, shead, f.name) != "static": continue
+                    for prm in split_top(f.params):
+                        if ":" not in prm: continue
+                        pty = norm(prm.split(":", 1)[1])
+                        pref, phead = type_head(pty)
+                        if phead in LT_TYPES and phead != "BumpScope":
+                            bound = {m.group(2)} if m else set()
+                            add("ctor", pref + phead, f"{shead}::{f.name}", shead, [lt_rel(l, bound, "fresh") for l in lt_positions(pty)], rel, f.line)
+    seen, out = set(), []
+    for r in rows:
+        k = (r[1], r[2])
+        if k in seen:
+            prev = next(x for x in out if (x[1], x[2]) == k)
+            if prev[4] != r[4]: die(f"conversion {r[1]} -> {r[2]} declared twice with different lifetime relations ({prev[5]}, {r[5]})")
+            continue
+        seen.add(k); out.append(r)
+    need = [("Stats", "AnyStats"), ("Chunk", "AnyChunk"), ("ChunkPrevIter", "AnyChunkPrevIter"), ("ChunkNextIter", "AnyChunkNextIter"),
+            ("Chunk", "Stats"), ("AnyChunk", "AnyStats"), ("&Bump", "&BumpScope"), ("&mut Bump", "&mut BumpScope"),
+            ("Stats", "current_chunk"), ("Stats", "small_to_big"), ("Stats", "big_to_small"), ("Chunk", "prev"), ("Chunk", "next"),
+            ("Chunk", "iter_prev"), ("Chunk", "iter_next"), ("Chunk", "allocator"), ("AnyStats", "current_chunk"), ("AnyStats", "small_to_big"),
+            ("AnyStats", "big_to_small"), ("AnyChunk", "prev"), ("AnyChunk", "next"), ("AnyChunk", "iter_prev"), ("AnyChunk", "iter_next"),
+            ("ChunkPrevIter", "next"), ("ChunkNextIter", "next"), ("AnyChunkPrevIter", "next"), ("AnyChunkNextIter", "next"),
+            ("FixedBumpVec", "BumpVec::from_parts"), ("BumpBox", "FixedBumpVec::from_init")]
+    for k in need:
+        if k not in seen: die(f"expected conversion {k[0]} -> {k[1]} not found (or it no longer has a supported shape)")
+    return out
+
 # ------------------------------------------------------------------------------------------------
 
 EXPECTED = [
@@ -660,7 +825,7 @@ EXPECTED = [
      ("BumpPoolGuard", "deref"), ("BumpPoolGuard", "deref_mut"),
      ("BumpAllocator", "as_scope"), ("BumpAllocator", "as_mut_scope"), ("BumpAllocator", "scope_guard"), ("BumpAllocator", "scoped"),
      ("BumpAllocator", "scoped_aligned"), ("BumpAllocatorScope", "claim"), ("BumpAllocatorScope", "stats"), ("BumpAllocatorScope", "aligned"),
-     ("BumpAllocatorScope", "allocator"), ("BumpAllocatorTypedScope", "alloc"), ("BumpAllocatorTypedScope", "alloc_str"),
+     ("BumpAllocatorScope", "allocator"), ("BumpAllocatorCore", "any_stats"), ("BumpAllocatorTypedScope", "alloc"), ("BumpAllocatorTypedScope", "alloc_str"),
      ("BumpAllocatorTypedScope", "alloc_iter"), ("BumpAllocatorTypedScope", "alloc_fmt"), ("BumpAllocatorTypedScope", "alloc_cstr"),
      ("MutBumpAllocatorTypedScope", "alloc_iter_mut"), ("MutBumpAllocatorTypedScope", "alloc_fmt_mut"),
      ("BumpVec", "into_boxed_slice"), ("BumpVec", "into_slice"), ("BumpString", "into_boxed_str"), ("BumpString", "into_cstr"),
@@ -701,7 +866,7 @@ def extract(repo):
         die(f"bump_pool.rs: BumpPoolGuard<'a> {{ pool: &'a BumpPool<…> }} expected, found {lts} {fields}")
     sigs += deref_sigs(src, "bump_pool.rs", "BumpPoolGuard", 0)
     # traits
-    for rel, tr in (("traits/bump_allocator.rs", "BumpAllocator"), ("traits/bump_allocator_scope.rs", "BumpAllocatorScope"),
+    for rel, tr in (("traits/bump_allocator_core.rs", "BumpAllocatorCore"), ("traits/bump_allocator.rs", "BumpAllocator"), ("traits/bump_allocator_scope.rs", "BumpAllocatorScope"),
                     ("traits/bump_allocator_typed_scope.rs", "BumpAllocatorTypedScope"),
                     ("traits/mut_bump_allocator_typed_scope.rs", "MutBumpAllocatorTypedScope")):
         sigs += trait_sigs(read(repo, rel), rel, tr)
@@ -750,7 +915,7 @@ def extract(repo):
     for rel in ("bump.rs", "bump_scope.rs", "bump_scope_guard.rs", "bump_claim_guard.rs", "bump_pool.rs", "raw_bump.rs", "stats.rs", "bump_box.rs"):
         for a in auto_impls(read(repo, rel), rel, handle_types):
             autos.append(a + (rel,))
-    return list(seen.values()), scope_impls(repo), settings_asserts(repo), conversion_calls(repo), structs, autos, drop_impls(repo)
+    return list(seen.values()), scope_impls(repo), settings_asserts(repo), conversion_calls(repo), structs, autos, drop_impls(repo), value_conversions(repo)
 
 # ------------------------------------------------------------------------------------------------
 # Lean output
@@ -763,7 +928,7 @@ def lean_lt(l):
     return "." + {"static": "static_"}.get(l, l)
 
 def emit(repo, outdir):
-    sigs, impls, asserts, convs, structs, autos, drops = extract(repo)
+    sigs, impls, asserts, convs, structs, autos, drops, vconvs = extract(repo)
     L = []
     L.append("/-")
     L.append("  GENERATED by translator/sigs2lean.py from the Rust sources of bump-scope — do not edit.")
@@ -803,6 +968,14 @@ def emit(repo, outdir):
     L.append(",\n".join(f"  ⟨{lean_str(ty)}, {lean_str(m)}, {lean_str(blk)}, {line}⟩" for ty, m, blk, line in convs))
     L.append("]")
     L.append("")
+    L.append("/-- conversions between lifetime-carrying public types: (form, input, name, output, relation of every lifetime position")
+    L.append("    of the output to the lifetimes named by the input) -/")
+    L.append("def valueConvs : List ValueConv := [")
+    def lean_rel(r): return f"(.other {lean_str(r[6:])})" if r.startswith("other:") else "." + r
+    L.append(",\n".join(f"  ⟨.{fm}, {lean_str(i)}, {lean_str(n)}, {lean_str(o)}, [{', '.join(lean_rel(r) for r in rels)}], {lean_str(srcl)}⟩"
+                        for fm, i, n, o, rels, srcl in vconvs))
+    L.append("]")
+    L.append("")
     L.append("def structs : List StructDef := [")
     L.append(",\n".join(f"  ⟨{lean_str(n)}, [{', '.join(a)}]⟩" for n, a, _ in structs))
     L.append("]")
@@ -817,7 +990,7 @@ def emit(repo, outdir):
     L.append("")
     L.append("def dropImpls : List (String × Bool) := [" + ", ".join(f"({lean_str(t)}, {'true' if h else 'false'})" for t, h in drops) + "]")
     L.append("")
-    L.append("def table : Table := { sigs := sigs, scopeImpls := scopeImpls, settingsAsserts := settingsAsserts, conversions := conversions,")
+    L.append("def table : Table := { sigs := sigs, scopeImpls := scopeImpls, settingsAsserts := settingsAsserts, conversions := conversions, valueConvs := valueConvs,")
     L.append("                       structs := structs, autoImpls := autoImpls, dropImpls := dropImpls }")
     L.append("")
     L.append("end Gen.Sigs")
@@ -828,7 +1001,7 @@ def emit(repo, outdir):
     if old != text:
         with open(path, "w") as f: f.write(text)
     print(f"sigs2lean: {len(sigs)} signatures, {len(impls)} BumpAllocatorCoreScope impls, {len(asserts)} const-assert blocks, "
-          f"{len(convs)} conversions, {len(structs)} structs, {len(autos)} explicit Send/Sync impls -> {path}" + ("" if old != text else " (unchanged)"))
+          f"{len(convs)} settings conversions, {len(vconvs)} value conversions, {len(structs)} structs, {len(autos)} explicit Send/Sync impls -> {path}" + ("" if old != text else " (unchanged)"))
 
 def main():
     if len(sys.argv) != 3:
